@@ -18,6 +18,7 @@
 -/
 import XlVerif.Model.Evaluator
 import XlVerif.Model.Value
+import XlVerif.Model.C06
 namespace XlVerif.Model.C10
 open XlVerif XlVerif.Model.Evaluator XlVerif.Model.Value
 
@@ -198,6 +199,26 @@ end eval
 def evaluateLx (sem : Sem) (fuel : Nat) (m : MState) (a : Addr) (len : Nat) (f : Lx) : Res × List Addr :=
   let (c, r) := evalEntry mutStore sem fuel { st := m, evaluating := [], memo := [] } a len f
   (r, c.trace)
+
+/-! ### one Evaluator object over a sequence of inputs -/
+open XlVerif.Model.C06 (EvState evaluateOn)
+
+/-- `evaluator.evaluate(a)` on a REUSED evaluator (state `e`: the model it mutates and its `_evaluating`), the
+    entry cell `a` holding `f` -/
+def evaluateLxOn (sem : Sem) (fuel : Nat) (e : EvState) (a : Addr) (len : Nat) (f : Lx) : EvState × Res × List Addr :=
+  let (c, r) := evalEntry mutStore sem fuel { st := e.st, evaluating := e.evaluating, memo := [] } a len f
+  ({ st := c.st, evaluating := c.evaluating }, r, c.trace)
+
+/-- what a client does with one evaluator between two evaluations -/
+inductive HStep
+  | cell (a : Addr)                          -- `evaluator.evaluate(a)` on an ordinary cell
+  | entry (a : Addr) (len : Nat) (f : Lx)    -- … on a cell holding a formula over IF / AND / OR / NOT
+  | set (a : Addr) (v : V)                   -- `evaluator.set_cell_value(a, v)`: a new truth assignment
+
+def stepOn (sem : Sem) (fuel : Nat) (e : EvState) : HStep → EvState
+  | .cell a => (evaluateOn sem fuel e a).1
+  | .entry a len f => (evaluateLxOn sem fuel e a len f).1
+  | .set a v => { e with st := e.st.setCellValue a v }
 
 mutual
 /-- formulas that the shared model can express directly (no spy, no omitted branch, NOT as function 11) -/
